@@ -6,6 +6,17 @@ VERIF = os.path.dirname(HERE)
 ALL = ["C%02d" % i for i in range(1, 19)]
 
 CLAIMS = {
+    "C16": dict(
+        text=("Rocq proof over the model of init_from_template with regex matching and jinja2 rendering as Section "
+              "variables (oracles): an existing file is left identical unless overwrite is requested, nothing is written "
+              "when no pattern matches and no template is named, the FIRST matching pattern's template body is rendered "
+              "with vars | groupdict (date-like captures as dates), init twice = init once, and the body builder drops the "
+              "header up to the first blank line. Tied to the code by running the real function (twice, one process) on "
+              "generated configurations and comparing the whole directory with the model's plan rendered by jinja2."),
+        note=("Trusted: Coq kernel; extraction; harness; `re` and jinja2 are oracles evaluated by the harness with the "
+              "real libraries; file system modelled as a path->contents map."),
+        technique="Rocq proof (decision logic with oracles as section variables) + whole-directory correspondence",
+        design="§5 C16"),
     "C14": dict(
         text=("Rocq proof: for page names without '[', ']' and '#', the two successive str.replace calls of "
               "run_file_rename equal the one-pass reading of the property on every text (each [[A]] -> [[B]], each "
